@@ -257,7 +257,7 @@ def cargo_build(ctx, features, bins, release=False):
         return True
     if not os.path.exists(os.path.join(HARNESS, 'Cargo.lock')):
         shutil.copy(os.path.join(REPO, 'Cargo.lock'), os.path.join(HARNESS, 'Cargo.lock'))
-    cmd = ['cargo', 'build', '--offline', '--features', features]
+    cmd = ['cargo', 'build', '--offline', '--features', features, '--target-dir', os.path.join(HARNESS, 'target', features)]
     if release:
         cmd.append('--release')
     for b in bins:
@@ -274,8 +274,8 @@ def cargo_build(ctx, features, bins, release=False):
     return True
 
 
-def bin_path(name, release=False):
-    return os.path.join(HARNESS, 'target', 'release' if release else 'debug', name)
+def bin_path(name, release=False, features='fl'):
+    return os.path.join(HARNESS, 'target', features, 'release' if release else 'debug', name)
 
 
 class PipeResult:
